@@ -132,6 +132,10 @@ def fold_rule(prog, rep):
     args = [norm(a) for a in c.args] + [f"{k.arg}={norm(k.value)}" for k in c.keywords]
     ok = args == [f"{acc}[-1]", hv, pt]
     rep.check(ok, "FOLD", fi.short, "merge call arguments", f"heartbeat_merge({acc}[-1], {hv}, {pt})", f"heartbeat_merge is called as ({', '.join(args)}): the fold must merge the new element into the last accumulated one, with the pulsetime", fi.loc(c), expected=f"({acc}[-1], {hv}, {pt})", found=f"({', '.join(args)})")
+    skips = [n for n in ast.walk(lp) if isinstance(n, (ast.Continue, ast.Break, ast.Return))]
+    if skips:
+        rep.violation("FOLD", fi.short, "every element goes through the merge rule", f"the loop has a `{norm(skips[0])}` (line {skips[0].lineno}): some elements are dropped, or the fold stops, without heartbeat_merge deciding -- e.g. a heartbeat lying within the last event but carrying other data must become an event of its own", fi.loc(skips[0]))
+        return
     asg = [s for s in body if isinstance(s, ast.Assign) and s.value is c and len(s.targets) == 1 and isinstance(s.targets[0], ast.Name)]
     ifs = [s for s in body if isinstance(s, ast.If)]
     if len(asg) != 1 or len(ifs) != 1 or len(body) != 2:
